@@ -17,8 +17,12 @@ Wrapped == {"bare", "p2sh", "p2wsh", "p2sh-p2wsh"}
 \* witv16: version 16
 Plain == {"p2wpkh", "p2sh-p2wpkh", "witv1", "witv0bad", "p2sh19", "p2sh-witv1",
           "witv1-40", "witv0-40", "witv1-2", "wit41", "witv16", "wit1"}
-Leaves == IF Tier = "quick" THEN {"true", "p2pk", "p2pkh", "multisig", "big", "ifnm"}
-          ELSE {"true", "false", "p2pk", "p2pku", "p2pkh", "multisig", "multisig2of3", "big", "big10001", "ifnm", "cltv"}
+\* fad2 / fad2r: <sigA> DROP K CHECKSIGVERIFY K CHECKSIG solved by (sigB, sigA) / (sigA, sigB): two checks in one
+\* script whose script codes differ because FindAndDelete removes the embedded signature only when IT is checked;
+\* codesep2: K CHECKSIGVERIFY CODESEPARATOR K CHECKSIG (script codes differ by the separator position)
+TwoCheck == {"fad2", "fad2r", "codesep2"}
+Leaves == IF Tier = "quick" THEN {"true", "p2pk", "p2pkh", "multisig", "big", "ifnm"} \cup TwoCheck
+          ELSE {"true", "false", "p2pk", "p2pku", "p2pkh", "multisig", "multisig2of3", "big", "big10001", "ifnm", "cltv"} \cup TwoCheck
 SigKinds == {"canon", "nop", "extra", "pd1", "badsig"}
 WitKinds == {"canon", "empty", "extra", "big", "wrongscript", "unexpected"}
 
@@ -43,7 +47,7 @@ HasRedeemPush(pk) == pk \in {"p2sh", "p2sh-p2wsh", "p2sh-p2wpkh", "p2sh-witv1"}
 Valid(s) ==
   /\ (s.pk \in Wrapped <=> s.leaf # "none")
   /\ (s.sigk = "pd1" => HasRedeemPush(s.pk))
-  /\ (s.sigk = "badsig" => (s.leaf \in {"p2pk", "p2pku", "p2pkh", "multisig", "multisig2of3"} \/ s.pk \in {"p2wpkh", "p2sh-p2wpkh"}))
+  /\ (s.sigk = "badsig" => (s.leaf \in {"p2pk", "p2pku", "p2pkh", "multisig", "multisig2of3"} \cup TwoCheck \/ s.pk \in {"p2wpkh", "p2sh-p2wpkh"}))
   /\ (s.witk = "unexpected" <=> (~IsWitnessKind(s.pk) /\ s.witk # "canon"))
   /\ (s.witk \in {"empty", "extra", "big", "wrongscript"} => IsWitnessKind(s.pk))
   /\ (s.witk = "wrongscript" => s.pk \in {"p2wsh", "p2sh-p2wsh"})
